@@ -136,3 +136,193 @@ Proof.
     + rewrite AL2, L in GA. discriminate.
     + rewrite AL2, L in GA. cbn in GA. discriminate.
 Qed.
+
+(* ------------------------------------------------------------------ HI is preserved *)
+Lemma alloc_hostino_any c s t ro s1 :
+  uhi c = true -> small_t t -> allocate_inode c s (t_id t) (eff_fh c t) = (ro, s1) ->
+  get_unique_inode s (t_id t) = (ro, s1).
+Proof.
+  intros U SM. unfold allocate_inode. rewrite U. cbn [negb].
+  unfold small_t in SM. assert (X : (MAX_HOST_INO <? hid_ino (t_id t)) = false) by (apply N.ltb_ge; exact SM).
+  rewrite X. auto.
+Qed.
+
+Lemma HI_of_unique s id r s1 : HI s -> hid_ino id <= MAX_HOST_INO -> get_unique_inode s id = (r, s1) -> HI s1.
+Proof.
+  intros H SM GU. destruct (unique_small _ _ _ _ H SM GU) as (D & _ & _ & _ & _ & KEEP & U1 & U0 & U2).
+  constructor; auto.
+  intros i d. unfold dget. rewrite D. intros L. destruct (hN s H _ _ L) as [R|(S1 & u & G & E)]; [left; exact R|].
+  right. split; [exact S1|]. exists u. split; [apply KEEP; exact G|exact E].
+Qed.
+
+Lemma do_lookup_HI c s t r s' : uhi c = true -> HI s -> small_t t -> do_lookup c s t = (r, s') -> HI s'.
+Proof.
+  intros U H SM DL. destruct (do_lookup_cases _ _ _ _ _ DL) as
+    [(i & d & GA & Z & -> & ->)|[(i & d & GA & Z & -> & ->)|[(i & s1 & GA & AL & B & -> & ->)|(ro & GA & -> & AL)]]].
+  - destruct H as [U1 U0 U2 HN]. constructor; auto.
+    intros j dj. rewrite dget_set_rc. destruct (N.eqb_spec j i) as [->|NE]; [|apply HN].
+    intros X; inversion X; subst; cbn. apply (HN _ _ (get_alt_live _ _ _ _ _ GA)).
+  - exact H.
+  - pose proof (alloc_hostino_any _ _ _ _ _ U SM AL) as GU.
+    pose proof (HI_of_unique _ _ _ _ H SM GU) as H1.
+    destruct (unique_small _ _ _ _ H SM GU) as (_ & _ & _ & _ & SOME & _).
+    destruct (SOME i eq_refl) as (u & G1 & E & _).
+    destruct H1 as [U1 U0 U2 HN]. constructor; auto.
+    intros j dj. rewrite dget_insert. destruct (N.eqb_spec j i) as [->|NE]; [|apply HN].
+    intros X; inversion X; subst; cbn. right. split; [exact SM|]. exists u. auto.
+  - pose proof (alloc_hostino_any _ _ _ _ _ U SM AL) as GU. exact (HI_of_unique _ _ _ _ H SM GU).
+Qed.
+
+Lemma forget_HI c s i n : HI s -> HI (forget_one c s i n).
+Proof.
+  intros H. unfold forget_one. destruct (i =? ROOT_ID); [exact H|].
+  destruct (dget s i) as [d|] eqn:L; [|exact H].
+  destruct H as [U1 U0 U2 HN].
+  destruct (sat_sub (i_rc d) n =? 0).
+  - assert (UU : uids (remove s i (negb (uhi c) || (MAX_HOST_INO <? hid_ino (i_id d)))) = uids s /\
+                 next_uid (remove s i (negb (uhi c) || (MAX_HOST_INO <? hid_ino (i_id d)))) = next_uid s).
+    { unfold remove. rewrite L. destruct (negb (uhi c) || (MAX_HOST_INO <? hid_ino (i_id d))); auto. }
+    destruct UU as [UA UB]. constructor; rewrite ?UA, ?UB; auto.
+    intros j dj. rewrite dget_remove. destruct (j =? i); [discriminate|apply HN].
+  - constructor; auto.
+    intros j dj. rewrite dget_set_rc. destruct (N.eqb_spec j i) as [->|NE]; [|apply HN].
+    intros X; inversion X; subst; cbn. apply (HN _ _ L).
+Qed.
+
+Lemma import_HI s c root : data s = [] -> HI s -> HI (import s c root).
+Proof.
+  intros D [U1 U0 U2 HN]. constructor; auto.
+  intros i d. unfold import. rewrite dget_insert. destruct (N.eqb_spec i ROOT_ID); [auto|].
+  unfold dget. rewrite D. discriminate.
+Qed.
+
+Lemma no_reuse_nohandle c s t : ifh c = false -> IFh c s -> no_reuse c s t.
+Proof.
+  intros NI F i d L _. specialize (F _ _ L). unfold okfh, eff_fh in *. rewrite NI in *. cbn in F.
+  destruct (i_fh d); [discriminate|reflexivity].
+Qed.
+
+(* ------------------------------------------------------------------ requests and histories *)
+Definition t_host (c : cfg) (s : istate) (t : target) : Prop := small_t t /\ wf_t c t /\ no_reuse c s t.
+
+Fixpoint ents_host (c : cfg) (plus : bool) (s : istate) (ents : list (target * bool)) : Prop :=
+  match ents with
+  | [] => True
+  | e :: r => t_host c s (fst e) /\ ents_host c plus (snd (readdir_entry c plus s e)) r
+  end.
+
+Definition op_host (c : cfg) (s : istate) (o : op) : Prop :=
+  match o with
+  | OLookup _ (Some t) | OEntry _ (Some t) | OLink _ _ (Some t) | OCreate _ (Some t) _ _ => t_host c s t
+  | OReaddir plus ents => ents_host c plus s ents
+  | ODestroy root => small_t root /\ wf_t c root
+  | _ => True
+  end.
+
+Definition HInvs (c : cfg) (s : istate) : Prop := HI s /\ KInv c s.
+
+Lemma lookup_host c s t r s' : uhi c = true -> HInvs c s -> t_host c s t -> do_lookup c s t = (r, s') ->
+  fresh_alloc c s t /\ HInvs c s'.
+Proof.
+  intros U [H K] (SM & W & NR) DL. split; [apply hostino_fresh; assumption|].
+  split; [eapply do_lookup_HI; eauto|]. destruct K as [A F]. eapply do_lookup_IA; eauto.
+Qed.
+
+Lemma forget_host c s i n : HInvs c s -> HInvs c (forget_one c s i n).
+Proof. intros [H [A F]]. split; [apply forget_HI; exact H|apply forget_IA; assumption]. Qed.
+
+Lemma readdir_entries_host c plus : uhi c = true -> forall ents s,
+  HInvs c s -> ents_host c plus s ents ->
+  ents_fresh c plus s ents /\ HInvs c (snd (readdir_entries c plus s ents)).
+Proof.
+  intros U. induction ents as [|e r IH]; cbn [ents_host ents_fresh readdir_entries]; intros s HK EH.
+  - cbn. auto.
+  - destruct EH as [TH EH]. unfold readdir_entry in *.
+    destruct (do_lookup c s (fst e)) as [lr s1] eqn:DL.
+    destruct (lookup_host _ _ _ _ _ U HK TH DL) as [FR HK1].
+    destruct lr as [i| |]; cbn [snd] in *.
+    + set (s2 := if plus && snd e then s1 else forget_one c s1 i 1) in *.
+      assert (HK2 : HInvs c s2) by (unfold s2; destruct (plus && snd e); [exact HK1|apply forget_host; exact HK1]).
+      destruct (IH s2 HK2 EH) as [F2 K2]. split; [split; assumption|].
+      destruct (readdir_entries c plus s2 r); exact K2.
+    + destruct (IH s1 HK1 EH) as [F2 _]. split; [split; assumption|exact HK1].
+    + destruct (IH s1 HK1 EH) as [F2 _]. split; [split; assumption|exact HK1].
+Qed.
+
+Theorem step_host c s o : uhi c = true -> HInvs c s -> op_host c s o ->
+  op_fresh c s o /\ HInvs c (snd (step c s o)).
+Proof.
+  intros U HK OH.
+  assert (LK : forall t, t_host c s t -> fresh_alloc c s t /\ HInvs c (snd (lookup_reply c s t))).
+  { intros t TH. unfold lookup_reply. destruct (do_lookup c s t) as [lr s1] eqn:DL.
+    destruct (lookup_host _ _ _ _ _ U HK TH DL). destruct lr; auto. }
+  destruct o as [p t|p t|i p t|p t ex ok|i n|l|plus ents| |root]; cbn [step op_fresh op_host] in *.
+  - destruct t as [t|]; [|destruct (valid s p); auto]. destruct (LK t OH). destruct (valid s p); auto.
+  - destruct t as [t|]; [|destruct (valid s p); auto]. destruct (LK t OH). destruct (valid s p); auto.
+  - destruct t as [t|]; [|destruct (valid s i && valid s p); auto]. destruct (LK t OH). destruct (valid s i && valid s p); auto.
+  - destruct t as [t|]; [|destruct (valid s p); auto]. destruct (LK t OH) as [FR HK1]. split; [exact FR|].
+    destruct (valid s p); [|exact HK]. destruct (lookup_reply c s t) as [rep s1]. cbn [snd] in HK1.
+    destruct rep; try exact HK1. destruct ex; [|exact HK1].
+    destruct (dget s1 i) as [d|]; [destruct (i_safe d); [destruct ok|]|]; cbn [snd];
+      first [exact HK1|apply forget_host; exact HK1].
+  - split; [exact I|]. apply forget_host; exact HK.
+  - split; [exact I|]. cbn [snd]. clear LK OH. revert s HK. induction l as [|x r IH]; cbn; intros s HK; [exact HK|].
+    apply IH. apply forget_host; exact HK.
+  - destruct (readdir_entries_host c plus U ents s HK OH) as [A B]. split; [exact A|].
+    destruct (readdir_entries c plus s ents); exact B.
+  - auto.
+  - split; [exact I|]. cbn [snd]. destruct HK as [H K]. destruct OH as [SM W]. split.
+    + apply import_HI; [reflexivity|]. destruct H as [U1 U0 U2 HN]. constructor; auto.
+      intros i d. unfold dget; cbn. discriminate.
+    + apply import_KInv; [reflexivity|exact W].
+Qed.
+
+Fixpoint hist_host (c : cfg) (s : istate) (h : list op) : Prop :=
+  match h with [] => True | o :: r => op_host c s o /\ hist_host c (snd (step c s o)) r end.
+
+Lemma hist_fresh_hostino c : uhi c = true -> forall h s, HInvs c s -> hist_host c s h -> hist_fresh c s h.
+Proof.
+  intros U. induction h as [|o h IH]; intros s HK HH; cbn [hist_fresh hist_host] in *; [exact I|].
+  destruct HH as [OH HH]. destruct (step_host c s o U HK OH) as [F HK1]. split; [exact F|apply IH; assumption].
+Qed.
+
+Lemma fresh_HI c root : HI (fresh c root).
+Proof.
+  apply import_HI; [reflexivity|]. constructor; cbn; try discriminate; try lia.
+Qed.
+
+(* use_host_ino modes: the refinement to the client's ledger, from a fresh server *)
+Theorem run_refines_hostino c root h :
+  uhi c = true -> wf_t c root -> hist_host c (fresh c root) h -> 2 + total_allocs h < U64MAX ->
+  let r := run c (fresh c root) h in
+  I1 (snd r) /\ IRoot (snd r) /\ ~ In RSpin (fst r) /\
+  forall j, j <> ROOT_ID -> refs_of (snd r) j = spec_run (refs_of (fresh c root)) h (fst r) j.
+Proof.
+  intros U W HH NW. apply (run_refines c h (fresh c root) 2); auto using fresh_I1, fresh_root, fresh_rb; try lia.
+  apply hist_fresh_hostino; [exact U| |exact HH]. split; [apply fresh_HI|apply fresh_KInv; exact W].
+Qed.
+
+(* non-vacuity: a use_host_ino history with forget + re-lookup and a failing create *)
+Definition hi_cfg : cfg := mkCfg false true.
+Definition hi_hist : list op :=
+  [OLookup 1 (Some ex_a); OForget 140737488355430 1; OLookup 1 (Some ex_a); OCreate 1 (Some d9_fifo) true false;
+   OReaddir true [(ex_a, true); (d9_fifo, false)]].
+Lemma hi_hist_ok :
+  hist_host hi_cfg (fresh hi_cfg d9_root) hi_hist /\
+  fst (run hi_cfg (fresh hi_cfg d9_root) hi_hist) =
+    [RIno 140737488355430; RUnit; RIno 140737488355430; RErr EBADF; REnts [(140737488355430, true); (140737488355429, false)]].
+Proof.
+  split; [|vm_compute; reflexivity].
+  assert (NRU : forall s t, IFh hi_cfg s -> no_reuse hi_cfg s t) by (intros; apply no_reuse_nohandle; auto).
+  cbn [hist_host hi_hist op_host ents_host].
+  repeat match goal with
+         | |- _ /\ _ => split
+         | |- True => exact I
+         | |- t_host _ _ _ => split; [vm_compute; discriminate|split; [reflexivity|]]
+         end;
+  intros i d L _; vm_compute in L;
+  repeat match type of L with
+         | (if ?b then _ else _) = _ => destruct b
+         | match ?x with _ => _ end = _ => destruct x
+         end; try discriminate; inversion L; reflexivity.
+Qed.
